@@ -77,6 +77,18 @@ def impl_call(f):
     return '(IVal %s)' % C.q(v), v
 
 
+def _pysrc(v):
+    if isinstance(v, np.ndarray):
+        return 'np.array(%r, dtype=%r).reshape(%r)' % (v.ravel().tolist(), str(v.dtype), tuple(v.shape))
+    if isinstance(v, float) and v == INF:
+        return "float('inf')"
+    return repr(v)
+
+
+def _kwsrc(kw):
+    return ', '.join('%s=%s' % (k, _pysrc(v)) for k, v in sorted(kw.items()))
+
+
 _QUIRKS = None
 
 
@@ -196,6 +208,8 @@ class TensorLeaf(Node):
                 wq = '(LArr %s)' % qlist(w)
             kw['weighting'] = w
         self.space = odl.tensor_space(shape, **kw)
+        self.src = 'odl.tensor_space(%r, %s)' % (tuple(shape), _kwsrc(kw))
+        self.kw = kw
         zd = (shape == ())
         self.coq = '(SLeaf (LTensor true %s %s %s))' % (C.b(zd), wq, expo(p))
         self.desc = {'kind': 'tensor', 'shape': list(shape), 'dtype': dtype, 'weighting': wkind,
@@ -267,6 +281,7 @@ class DiscrLeaf(Node):
         if all(s[0] == 'flags' for s in specs):
             nob = [(s[4], s[5]) for s in specs]
             self.space = odl.uniform_discr(mins, maxs, shape, nodes_on_bdry=nob, **kw)
+            self.src = 'odl.uniform_discr(%r, %r, %r, nodes_on_bdry=%r, %s)' % (mins, maxs, shape, nob, _kwsrc(kw))
         else:
             g0 = [s[4] if s[0] == 'grid' else None for s in specs]
             vecs = []
@@ -278,6 +293,10 @@ class DiscrLeaf(Node):
                     vecs.append(part1.grid.coord_vectors[0])
             part = odl.RectPartition(odl.IntervalProd(mins, maxs), odl.RectGrid(*vecs))
             self.space = odl.uniform_discr_frompartition(part, **kw)
+            self.src = ('odl.uniform_discr_frompartition(odl.RectPartition(odl.IntervalProd(%r, %r), '
+                        'odl.RectGrid(*[np.array(v) for v in %r])), %s)'
+                        % (mins, maxs, [v.tolist() for v in vecs], _kwsrc(kw)))
+        self.kw = kw
         axq = []
         for s in specs:
             if s[0] == 'flags':
@@ -338,10 +357,15 @@ class ProdNode(Node):
         if k == 0:
             kw['field'] = odl.RealNumbers()
             self.space = odl.ProductSpace(**kw)
+            self.src = 'odl.ProductSpace(field=odl.RealNumbers(), %s)' % _kwsrc(
+                {a: b for a, b in kw.items() if a != 'field'})
         elif power:
             self.space = odl.ProductSpace(children[0].space, k, **kw)
+            self.src = 'odl.ProductSpace(%s, %d, %s)' % (children[0].src, k, _kwsrc(kw))
         else:
             self.space = odl.ProductSpace(*[c.space for c in children], **kw)
+            self.src = 'odl.ProductSpace(%s, %s)' % (', '.join(c.src for c in children), _kwsrc(kw))
+        self.kw = kw
         self.coq = '(SProd %s %s %s)' % (wq, expo(p), C.lst([c.coq for c in children]))
         self.desc = {'kind': 'prod', 'weighting': wkind, 'exponent': str(p), 'power': power,
                      'parts': [c.desc for c in children]}
@@ -543,8 +567,283 @@ def correspondence(rng, tier):
 
 
 # ------------------------------------------------------------------ probes
+def mk_elem(space, data):
+    """Element of `space` from nested python data (leaf: flat list in C order; product: list of parts)."""
+    import odl
+    if isinstance(space, odl.ProductSpace):
+        return space.element([mk_elem(sp, d) for sp, d in zip(space.spaces, data)])
+    return space.element(np.array(data, dtype=space.dtype).reshape(space.shape))
+
+
+def rand_data(rng, space, cplx=False):
+    import odl
+    if isinstance(space, odl.ProductSpace):
+        return [rand_data(rng, sp, cplx) for sp in space.spaces]
+    n = int(np.prod(space.shape)) if len(space.shape) else 1
+    if space.is_complex:
+        return [complex(rng.randint(-4, 4), rng.randint(-4, 4)) for _ in range(n)]
+    return [float(rng.randint(-5, 5)) for _ in range(n)]
+
+
+def _frac_weights(space):
+    """Independent oracle: outer product of the per-axis boundary-cell fraction vectors of a uniform
+    partition, from grid points and domain limits only."""
+    part = space.partition
+    w = np.ones(())
+    for vec, a, b in zip(part.grid.coord_vectors, part.min_pt, part.max_pt):
+        n = len(vec)
+        if n == 1:
+            v = np.ones(1)
+        else:
+            h = (vec[-1] - vec[0]) / (n - 1)
+            v = np.ones(n)
+            v[0] = 0.5 + (vec[0] - a) / h
+            v[-1] = 0.5 + (b - vec[-1]) / h
+        w = np.multiply.outer(w, v)
+    return w.reshape(space.shape)
+
+
+def _leaf_w(space):
+    """(weights array for finite p, weights array for p = inf) as documented."""
+    import odl
+    tsp = space.tspace if isinstance(space, odl.DiscretizedSpace) else space
+    wt = tsp.weighting
+    if hasattr(wt, 'const'):
+        base = np.full(space.shape, wt.const)
+    else:
+        base = np.asarray(wt.array, dtype=float)
+    if isinstance(space, odl.DiscretizedSpace):
+        return base * _frac_weights(space), base
+    return base, base
+
+
+def oracle_inner(space, x, y):
+    import odl
+    if isinstance(space, odl.ProductSpace):
+        wt = space.weighting
+        w = [wt.const] * len(space) if hasattr(wt, 'const') else list(wt.array)
+        return sum(wi * oracle_inner(sp, xi, yi) for wi, sp, xi, yi in zip(w, space.spaces, x, y))
+    W, _ = _leaf_w(space)
+    return np.sum(W * np.asarray(x) * np.conj(np.asarray(y)))
+
+
+def oracle_norm(space, x):
+    import odl
+    p = space.exponent
+    if isinstance(space, odl.ProductSpace):
+        wt = space.weighting
+        w = np.array([wt.const] * len(space) if hasattr(wt, 'const') else list(wt.array), dtype=float)
+        n = np.array([oracle_norm(sp, xi) for sp, xi in zip(space.spaces, x)])
+        if p == INF:
+            return float(np.max(w * n))
+        return float(np.sum(w * n ** p) ** (1.0 / p))
+    W, Winf = _leaf_w(space)
+    ax = np.abs(np.asarray(x))
+    if p == INF:
+        return float(np.max(Winf * ax))
+    return float(np.sum(W * ax ** p) ** (1.0 / p))
+
+
+def _walk(space):
+    import odl
+    yield space
+    if isinstance(space, odl.ProductSpace):
+        for sp in space.spaces:
+            for t in _walk(sp):
+                yield t
+
+
+def known_key(space):
+    """Key of the recorded finding whose trigger is present in this space tree (None if none)."""
+    import odl
+    for sp in _walk(space):
+        if isinstance(sp, odl.ProductSpace):
+            if len(sp) == 0:
+                return 'pspace-empty-raises'
+            if sp.exponent == 2.0 and any(c.exponent != 2.0 for c in sp.spaces):
+                return 'pspace-exp2-over-exp1-components'
+        else:
+            if sp.shape == ():
+                return 'tensor-0d-norm-zero'
+            if sp.size == 0:
+                return 'tensor-size0-norm-raises'
+            if isinstance(sp, odl.DiscretizedSpace):
+                wt = sp.tspace.weighting
+                fr = np.array(sp.partition.boundary_cell_fractions)
+                if getattr(wt, 'const', None) == 1.0 and sp.exponent != INF and not np.allclose(fr, 1.0):
+                    return 'discr-unit-cell-volume-skips-bdry-fractions'
+                if np.any((np.abs(fr - 1.0) <= 1.001e-5) & (fr != 1.0) & (np.abs(fr - 1.0) > 1e-12)):
+                    return 'discr-bdry-fraction-isclose-snap'
+    return None
+
+
+def _close(a, b, rel=1e-9):
+    return abs(a - b) <= rel * max(1.0, abs(a), abs(b))
+
+
+def check_space(space, xd, yd, zd, a):
+    """Evaluate the property on one space and data; returns list of (prop, ok, detail)."""
+    out = []
+    x, y, z = mk_elem(space, xd), mk_elem(space, yd), mk_elem(space, zd)
+    hilbert = all(sp.exponent == 2.0 for sp in _walk(space))
+
+    def attempt(prop, f):
+        try:
+            ok, det = f()
+        except Exception as e:        # a raised exception means the clause is not satisfied
+            ok, det = False, '%s: %s' % (type(e).__name__, str(e)[:100])
+        out.append((prop, bool(ok), det))
+    if hilbert:
+        attempt('sym', lambda: (_close(x.inner(y), np.conj(y.inner(x))), None))
+        attempt('lin', lambda: (_close((a * x + y).inner(z), a * x.inner(z) + y.inner(z), 1e-8), None))
+        attempt('pos', lambda: (complex(x.inner(x)).imag == 0 and complex(x.inner(x)).real >= 0 and
+                                (complex(x.inner(x)).real > 0 or x == space.zero()), x.inner(x)))
+        attempt('cs', lambda: (abs(x.inner(y)) ** 2 <= (x.inner(x) * y.inner(y)).real * (1 + 1e-9) + 1e-12, None))
+        attempt('norm-inner', lambda: (_close(x.norm(), np.sqrt(complex(x.inner(x)).real)), (x.norm(), x.inner(x))))
+        attempt('formula-inner', lambda: (_close(complex(x.inner(y)), complex(oracle_inner(space, x, y))),
+                                          (x.inner(y), oracle_inner(space, x, y))))
+    attempt('homog', lambda: (_close((a * x).norm(), abs(a) * x.norm()), None))
+    attempt('triangle', lambda: ((x + y).norm() <= (x.norm() + y.norm()) * (1 + 1e-9) + 1e-12, None))
+    attempt('formula-norm', lambda: (_close(x.norm(), oracle_norm(space, x)), (x.norm(), oracle_norm(space, x))))
+    attempt('dist-norm', lambda: (_close(x.dist(y), (x - y).norm()), (x.dist(y),)))
+    attempt('dist-sym', lambda: (_close(x.dist(y), y.dist(x)), None))
+    attempt('dist-formula', lambda: (_close(x.dist(y), oracle_norm(space, x - y)), None))
+    return out
+
+
+def _kind(space):
+    import odl
+    wk = 'const' if hasattr(space.weighting, 'const') else 'array'
+    p = space.exponent
+    pc = 'pinf' if p == INF else ('p%d' % int(p) if p in (1.0, 2.0) else 'pgen')
+    if isinstance(space, odl.ProductSpace):
+        return 'pspace-%s-%s' % (wk, pc)
+    if isinstance(space, odl.DiscretizedSpace):
+        return 'discr-%s-%s' % (wk, pc)
+    return 'tensor-%s-%s' % (wk, pc)
+
+
+def probe_space(out, src, space, rng, cplx=False):
+    xd, yd, zd = [rand_data(rng, space, cplx) for _ in range(3)]
+    a = rng.choice([-2.0, 0.5, 3.0, -1.0, 0.0, 1.5])
+    if space.is_complex and rng.random() < 0.7:
+        a = complex(a, rng.choice([1.0, -2.0, 0.5]))
+    kk = known_key(space)
+    kind = _kind(space)
+    res = check_space(space, xd, yd, zd, a)
+    for prop, ok, det in res:
+        key = '%s-%s' % (kind, prop)
+        if not ok and kk is not None:
+            key = kk
+        rp = ("import numpy as np, odl, sys\nsys.path.insert(0, %r)\nfrom harness.c02 import check_space\n"
+              "space = %s\nres = check_space(space, %r, %r, %r, %r)\n"
+              "observed = [r for r in res if r[0] == %r]\nok = all(r[1] for r in observed)\n"
+              % (C.VERIF, src, xd, yd, zd, a, prop))
+        out.append(C.Probe(ok, key, '%s on %s' % (prop, src[:160]), rp, det))
+
+
 def probes(rng, tier):
-    return []
+    import odl
+    out = []
+    thorough = tier != 'quick'
+    pexp = [1, 2, INF, 3, 1.5, 2.5]
+    # (1) tensor spaces: every weighting kind x exponent (incl. non-integer p), real and complex, 1-3 axes
+    for p, wk, cplx in itertools.product(pexp, ['none', 'const', 'array'], [False, True]):
+        for _ in range(1 if not thorough else 3):
+            node = TensorLeaf(rng, p, wkind=wk, dtype='complex128' if cplx else 'float64')
+            probe_space(out, node.src, node.space, rng, cplx)
+    # (2) discretized spaces: every nodes_on_bdry pattern per axis side (asymmetric ones included)
+    for p, wk in itertools.product(pexp, ['default', 'const', 'array']):
+        for _ in range(3 if not thorough else 12):
+            node = DiscrLeaf(rng, p, wkind=wk, dtype='complex128' if rng.random() < 0.3 else 'float64')
+            if node.fragile():
+                continue
+            probe_space(out, node.src, node.space, rng)
+    # (3) ||one||^2 = volume of the domain, default weighting, all flag patterns, 1-3 axes, F-ordered data
+    for _ in range(40 if not thorough else 300):
+        node = DiscrLeaf(rng, 2, wkind='default', free_fracs=rng.random() < 0.3)
+        if node.fragile():
+            continue
+        sp = node.space
+        vol = float(np.prod(sp.partition.extent))
+        got = sp.one().norm() ** 2
+        ok = _close(got, vol)
+        key = 'discr-one-norm-volume'
+        if not ok and known_key(sp):
+            key = known_key(sp)
+        rp = ("import numpy as np, odl\nspace = %s\nobserved = space.one().norm() ** 2\n"
+              "expected = float(np.prod(space.partition.extent))\nok = abs(observed - expected) <= 1e-9 * expected\n"
+              % node.src)
+        out.append(C.Probe(ok, key, '||one||^2 = domain volume on %s' % node.src[:160], rp, (got, vol)))
+    # (4) nested product spaces
+    for _ in range(60 if not thorough else 500):
+        node = rand_tree(rng, rng.choice([1, 2, 2, 3]), tier)
+        if not isinstance(node, ProdNode) or any(getattr(sp, 'dtype', None) == np.dtype('float32')
+                                                 for sp in _walk(node.space)):
+            continue
+        probe_space(out, node.src, node.space, rng)
+    # (5) the recorded findings, each reproduced on its own input
+    def known(key, what, snippet):
+        env = {}
+        try:
+            exec(snippet, env)
+            ok = bool(env.get('ok'))
+        except Exception:
+            ok = False
+        out.append(C.Probe(ok, key, what, snippet, env.get('observed')))
+    known('pspace-exp2-over-exp1-components',
+          'dist(x,y) == norm(x-y) on ProductSpace(rn(3, exponent=1), 2, exponent=2)',
+          "import odl\nps = odl.ProductSpace(odl.rn(3, exponent=1), 2, exponent=2)\nx = ps.one(); y = ps.zero()\n"
+          "observed = x.dist(y)\ntry:\n    ok = abs(observed - (x - y).norm()) < 1e-12\nexcept NotImplementedError:\n    ok = False\n")
+    known('discr-unit-cell-volume-skips-bdry-fractions',
+          'uniform_discr(0, 2, 3, nodes_on_bdry=True).one().norm()**2 == 2 (domain volume)',
+          "import odl\nobserved = odl.uniform_discr(0, 2, 3, nodes_on_bdry=True).one().norm() ** 2\n"
+          "expected = 2.0\nok = abs(observed - expected) < 1e-9\n")
+    known('discr-unit-cell-volume-skips-bdry-fractions',
+          'explicit weighting=1.0 with nodes on the boundary: inner = sum of fractions * x * y',
+          "import odl, numpy as np\nsp = odl.uniform_discr(0, 1, 3, nodes_on_bdry=True, weighting=1.0)\n"
+          "observed = sp.one().inner(sp.one())\nexpected = 2.0\nok = abs(observed - expected) < 1e-9\n")
+    for p in (2, INF):
+        known('tensor-size0-norm-raises', 'rn(0, exponent=%r).zero().norm() == 0' % p,
+              "import odl\ntry:\n    observed = odl.rn(0, exponent=%s).zero().norm()\n    ok = observed == 0.0\n"
+              "except Exception as e:\n    observed = repr(e); ok = False\n" % _pysrc(float(p)))
+    known('tensor-size0-norm-raises', 'dist on rn((2, 0)) == 0',
+          "import odl\ns = odl.rn((2, 0))\ntry:\n    observed = s.zero().dist(s.zero())\n    ok = observed == 0.0\n"
+          "except Exception as e:\n    observed = repr(e); ok = False\n")
+    known('tensor-0d-norm-zero', 'rn(()).one().norm() == sqrt(inner) == 1',
+          "import odl, numpy as np\nx = odl.rn(()).one()\nobserved = x.norm()\nexpected = float(np.sqrt(x.inner(x)))\n"
+          "ok = abs(observed - expected) < 1e-12\n")
+    for p in (2, INF):
+        known('pspace-empty-raises', 'norm of the element of an empty product space (exponent %r) is 0' % p,
+              "import odl\nps = odl.ProductSpace(field=odl.RealNumbers(), exponent=%s)\ntry:\n"
+              "    observed = ps.zero().norm()\n    ok = observed == 0.0\nexcept Exception as e:\n"
+              "    observed = repr(e); ok = False\n" % _pysrc(float(p)))
+    known('discr-bdry-fraction-isclose-snap',
+          'boundary fraction 1.000002 (inside the np.isclose band): ||one||^2 == volume',
+          "import odl, numpy as np\npart = odl.RectPartition(odl.IntervalProd(0, 4 + 0.5 + 0.5 * 1.000004), "
+          "odl.uniform_grid(0.5, 4.5, 5))\nsp = odl.uniform_discr_frompartition(part)\n"
+          "observed = sp.one().norm() ** 2\nexpected = float(part.extent[0])\n"
+          "ok = abs(observed - expected) <= 1e-9 * expected\n")
+    # (6) custom inner / norm / dist: pure delegation
+    for kind in ('inner', 'norm', 'dist'):
+        n = rng.randint(1, 5)
+        w = [float(rng.choice([1, 2, 3])) for _ in range(n)]
+        xd = [float(rng.randint(-5, 5)) for _ in range(n)]
+        yd = [float(rng.randint(-5, 5)) for _ in range(n)]
+        for factory in ('odl.rn(%d, ' % n, 'odl.ProductSpace(odl.rn(%d), 1, ' % n):
+            fn = {'inner': "lambda a, b: float(np.sum(w * np.asarray(a).ravel() * np.asarray(b).ravel()))",
+                  'norm': "lambda a: float(np.sum(w * np.abs(np.asarray(a).ravel())))",
+                  'dist': "lambda a, b: float(np.sum(w * np.abs(np.asarray(a).ravel() - np.asarray(b).ravel())))"}[kind]
+            chk = {'inner': "ok = x.inner(y) == f(x, y) and abs(x.norm() - np.sqrt(f(x, x))) < 1e-12 and "
+                            "abs(x.dist(y) - np.sqrt(f(x - y, x - y))) < 1e-12",
+                   'norm': "ok = x.norm() == f(x) and x.dist(y) == f(x - y)",
+                   'dist': "ok = x.dist(y) == f(x, y)"}[kind]
+            mk = ("x = sp.element([%r]); y = sp.element([%r])" if 'ProductSpace' in factory
+                  else "x = sp.element(%r); y = sp.element(%r)") % (xd, yd)
+            known('custom-%s-delegation' % kind, 'custom %s callable is used as-is (%s...)' % (kind, factory),
+                  "import odl, numpy as np\nw = np.array(%r)\nf = %s\nsp = %s%s=f)\n%s\n%s\n"
+                  % (w, fn, factory, kind, mk, chk))
+    return out
 
 
 LEVEL_TEXT = ''
